@@ -14,8 +14,10 @@
    accumulated from zero.  The initial contents of the result array (cells b0) are
    arbitrary and do not appear on the right-hand sides: every cell is overwritten.  *)
 From Coq Require Import List Arith ZArith Reals.
+From Coq Require Import Ring_theory.
 From LibaV Require Import C09.LinalgDefs C09.LinalgSpec C09.LinalgPatProofs C09.LinalgTProofs
-     C09.LinalgMulProofs.
+     C09.LinalgMulProofs C09.LinalgRing.
+From LibaV Require C09.LinalgExamples.   (* non-vacuity examples: built and checked with this file *)
 
 (* ---------------------------------------------------------------- products *)
 
@@ -224,3 +226,139 @@ Theorem C09_triU2_spec :
         ent T zero n (cells b) r c = if r <=? c then ent T zero n A r c else zero.
 Proof. exact triU2_ok. Qed.
 Print Assumptions C09_triU2_spec.
+
+(* ------------------- "the product of the correspondingly transposed operands" *)
+(* The transposed products equal the plain product applied to operands transposed by
+   the model's own T2 (any T, no law). *)
+
+Theorem C09_mulTm_is_mulmm_of_transposed :
+  forall (T : Type) (zero : T) (add mul : T -> T -> T) (c_r row col : nat) (X Y : list T)
+         (bt b0 b1 : buf T),
+    length X = c_r * row -> length Y = c_r * col ->
+    length (cells bt) = row * c_r -> length (cells b0) = row * col -> length (cells b1) = row * col ->
+    exists xt z1 z2,
+      T2 T c_r row X bt = Ok xt /\
+      mulTm T zero add mul c_r row col X Y b0 = Ok z1 /\
+      mulmm T zero add mul row c_r col (cells xt) Y b1 = Ok z2 /\
+      cells z1 = cells z2.
+Proof. exact mulTm_as_mulmm. Qed.
+Print Assumptions C09_mulTm_is_mulmm_of_transposed.
+
+Theorem C09_mulmT_is_mulmm_of_transposed :
+  forall (T : Type) (zero : T) (add mul : T -> T -> T) (row col c_r : nat) (X Y : list T)
+         (bt b0 b1 : buf T),
+    length X = row * c_r -> length Y = col * c_r ->
+    length (cells bt) = c_r * col -> length (cells b0) = row * col -> length (cells b1) = row * col ->
+    exists yt z1 z2,
+      T2 T col c_r Y bt = Ok yt /\
+      mulmT T zero add mul row col c_r X Y b0 = Ok z1 /\
+      mulmm T zero add mul row c_r col X (cells yt) b1 = Ok z2 /\
+      cells z1 = cells z2.
+Proof. exact mulmT_as_mulmm. Qed.
+Print Assumptions C09_mulmT_is_mulmm_of_transposed.
+
+Theorem C09_mulTT_is_mulmm_of_transposed :
+  forall (T : Type) (zero : T) (add mul : T -> T -> T) (row c_r col : nat) (X Y : list T)
+         (btx bty b0 b1 : buf T),
+    length X = c_r * row -> length Y = col * c_r ->
+    length (cells btx) = row * c_r -> length (cells bty) = c_r * col ->
+    length (cells b0) = row * col -> length (cells b1) = row * col ->
+    exists xt yt z1 z2,
+      T2 T c_r row X btx = Ok xt /\ T2 T col c_r Y bty = Ok yt /\
+      mulTT T zero add mul row c_r col X Y b0 = Ok z1 /\
+      mulmm T zero add mul row c_r col (cells xt) (cells yt) b1 = Ok z2 /\
+      cells z1 = cells z2.
+Proof. exact mulTT_as_mulmm. Qed.
+Print Assumptions C09_mulTT_is_mulmm_of_transposed.
+
+(* ------------------------------------------------ over a commutative ring *)
+
+(* the order of accumulation (the C sums the inner index upwards) is immaterial *)
+Theorem C09_dotsum_order_irrelevant :
+  forall (T : Type) (zero one : T) (add mul sub : T -> T -> T) (opp : T -> T),
+    ring_theory zero one add mul sub opp (@eq T) ->
+    forall (k : nat) (f : nat -> T),
+      dotsum T zero add k f = dotsum T zero add k (fun t => f (k - 1 - t)).
+Proof. exact dotsum_rev. Qed.
+Print Assumptions C09_dotsum_order_irrelevant.
+
+(* (Y X)^T = X^T Y^T as computed by mulmm, T2 and mulTT *)
+Theorem C09_mul_transpose :
+  forall (T : Type) (zero one : T) (add mul sub : T -> T -> T) (opp : T -> T),
+    ring_theory zero one add mul sub opp (@eq T) ->
+    forall (row c_r col : nat) (X Y : list T) (b0 b1 b2 : buf T),
+      length X = c_r * row -> length Y = col * c_r ->
+      length (cells b0) = row * col -> length (cells b1) = col * row -> length (cells b2) = row * col ->
+      exists z1 p z2,
+        mulTT T zero add mul row c_r col X Y b0 = Ok z1 /\
+        mulmm T zero add mul col c_r row Y X b1 = Ok p /\
+        T2 T col row (cells p) b2 = Ok z2 /\
+        cells z1 = cells z2.
+Proof. exact mul_transpose. Qed.
+Print Assumptions C09_mul_transpose.
+
+(* the matrix produced by eye1 is a left and a right unit of mulmm *)
+Theorem C09_eye_left_unit :
+  forall (T : Type) (zero one : T) (add mul sub : T -> T -> T) (opp : T -> T),
+    ring_theory zero one add mul sub opp (@eq T) ->
+    forall (n col : nat) (Y : list T) (be b0 : buf T),
+      length Y = n * col -> length (cells be) = n * n -> length (cells b0) = n * col ->
+      exists e z, eye1 T zero one n be = Ok e /\
+                  mulmm T zero add mul n n col (cells e) Y b0 = Ok z /\ cells z = Y.
+Proof. exact mulmm_eye_l. Qed.
+Print Assumptions C09_eye_left_unit.
+
+Theorem C09_eye_right_unit :
+  forall (T : Type) (zero one : T) (add mul sub : T -> T -> T) (opp : T -> T),
+    ring_theory zero one add mul sub opp (@eq T) ->
+    forall (row n : nat) (X : list T) (be b0 : buf T),
+      length X = row * n -> length (cells be) = n * n -> length (cells b0) = row * n ->
+      exists e z, eye1 T zero one n be = Ok e /\
+                  mulmm T zero add mul row n n X (cells e) b0 = Ok z /\ cells z = X.
+Proof. exact mulmm_eye_r. Qed.
+Print Assumptions C09_eye_right_unit.
+
+(* ------------------------------------------------------ instances Z and R *)
+
+Theorem C09_mul_transpose_Z :
+  forall (row c_r col : nat) (X Y : list Z) (b0 b1 b2 : buf Z),
+    length X = c_r * row -> length Y = col * c_r ->
+    length (cells b0) = row * col -> length (cells b1) = col * row -> length (cells b2) = row * col ->
+    exists z1 p z2,
+      mulTT Z 0%Z Z.add Z.mul row c_r col X Y b0 = Ok z1 /\
+      mulmm Z 0%Z Z.add Z.mul col c_r row Y X b1 = Ok p /\
+      T2 Z col row (cells p) b2 = Ok z2 /\
+      cells z1 = cells z2.
+Proof. exact (mul_transpose Z 0%Z 1%Z Z.add Z.mul Z.sub Z.opp Z_ring). Qed.
+Print Assumptions C09_mul_transpose_Z.
+
+Theorem C09_eye_left_unit_Z :
+  forall (n col : nat) (Y : list Z) (be b0 : buf Z),
+    length Y = n * col -> length (cells be) = n * n -> length (cells b0) = n * col ->
+    exists e z, eye1 Z 0%Z 1%Z n be = Ok e /\
+                mulmm Z 0%Z Z.add Z.mul n n col (cells e) Y b0 = Ok z /\ cells z = Y.
+Proof. exact (mulmm_eye_l Z 0%Z 1%Z Z.add Z.mul Z.sub Z.opp Z_ring). Qed.
+Print Assumptions C09_eye_left_unit_Z.
+
+Theorem C09_mul_transpose_R :
+  forall (row c_r col : nat) (X Y : list R) (b0 b1 b2 : buf R),
+    length X = c_r * row -> length Y = col * c_r ->
+    length (cells b0) = row * col -> length (cells b1) = col * row -> length (cells b2) = row * col ->
+    exists z1 p z2,
+      mulTT R 0%R Rplus Rmult row c_r col X Y b0 = Ok z1 /\
+      mulmm R 0%R Rplus Rmult col c_r row Y X b1 = Ok p /\
+      T2 R col row (cells p) b2 = Ok z2 /\
+      cells z1 = cells z2.
+Proof. exact (mul_transpose R 0%R 1%R Rplus Rmult Rminus Ropp R_ring). Qed.
+Print Assumptions C09_mul_transpose_R.
+
+(* over R every entry of mulmm is the standard library's finite sum (inner dimension k+1 >= 1) *)
+Theorem C09_mulmm_R_sum_f_R0 :
+  forall (row k col : nat) (X Y : list R) (b0 : buf R),
+    length X = row * S k -> length Y = S k * col -> length (cells b0) = row * col ->
+    exists b, mulmm R 0%R Rplus Rmult row (S k) col X Y b0 = Ok b /\
+      forall i j, i < row -> j < col ->
+        ent R 0%R col (cells b) i j =
+        sum_f_R0 (fun t => (ent R 0%R (S k) X i t * ent R 0%R col Y t j)%R) k.
+Proof. exact mulmm_R_sum_f_R0. Qed.
+Print Assumptions C09_mulmm_R_sum_f_R0.
